@@ -348,6 +348,20 @@ def _main(a, t0):
     covers = []
     ledger0_path = os.path.join(VERIF, "ledger", f"{prop}.json")
     ledger0 = json.load(open(ledger0_path)) if os.path.exists(ledger0_path) else None
+
+    def known_hash(k):
+        """source hash the ledger recorded for function k (`module:qualname[behavior]`); a behaviour the ledger does not
+        know yet (a contract added since) is compared with any other behaviour of the same function"""
+        if not ledger0:
+            return None
+        h = ledger0["functions"].get(k, {}).get("hash")
+        if h is None:
+            stem = k[: k.rindex("[") + 1]
+            for k2, v in ledger0["functions"].items():
+                if k2.startswith(stem) and v.get("hash"):
+                    return v["hash"]
+        return h
+
     for r in results:
         if r.get("crashed"):
             # the solver crashed twice while the obligations of this function were generated.  On source the
@@ -357,7 +371,7 @@ def _main(a, t0):
             k = f"{key[0]}:{key[1]}[{key[2]}]"
             fi = eng.repo.func(key[0], key[1]) if key[0] != "<lemma>" else None
             cur = fi.source_hash() if fi is not None else None
-            known = ledger0["functions"].get(k, {}).get("hash") if ledger0 else None
+            known = known_hash(k)
             if cur is not None and known is not None and cur != known:
                 unsupported.append((k, "solver crash while generating obligations (source differs from the baseline)"))
             else:
@@ -372,7 +386,7 @@ def _main(a, t0):
             # knows that is a checker failure; on changed code the function is undecided -- the rest of the
             # check (other functions, frame obligations, bounded stand-in) still reports what it finds.
             k = f"{s['function']}[{s['behavior']}]"
-            known = ledger0["functions"].get(k, {}).get("hash") if ledger0 else None
+            known = known_hash(k)
             if known is not None and s.get("source_hash") not in (None, known):
                 unsupported.append((k, "translator error on changed source: " + s["error"].splitlines()[0][:200]))
                 s = dict(s)
